@@ -63,6 +63,12 @@ extern "C" void h_routes(void) {
    impl::Lexicon* a = new impl::Lexicon; auto& lx = *a; const ipr::Lexicon& cl = lx;
    Word<C13_L> w; w.make();
    const ipr::Identifier& id = lx.get_identifier(w.view());
+   // what was asked of the Lexicon before must not matter: the same spelling may first have been used as an (unresolved) id-expression
+   // turned into a type, as an operator name, as a symbol name
+   unsigned before = vp_pick(4);
+   if (before == 1) (void)lx.get_as_type(*lx.make_id_expr(id));
+   else if (before == 2) (void)lx.get_as_type(*lx.make_id_expr(id), lx.get_transfer_from_linkage(lx.cxx_linkage()));
+   else if (before == 3) { (void)lx.get_operator(w.view()); (void)lx.get_symbol(id, lx.int_type()); }
    const ipr::As_type& t = lx.get_as_type(id);
    int hit = -1;
    for (int i = 0; i < 26; ++i) if (w.view() == util::word_view(rows[i].spelling)) hit = i;
